@@ -133,6 +133,18 @@ def tight_cases(rng, n):
         for via in ("vector", "colview"):
             # (a str makes it an object column: every write fits)
             cs.append({"op": "tight", "cols": [col + ["x"], [1, 2, 3]], "col": 0, "via": via, "writes": [w], "fp_first": True, "kind": "nan"})
+    # a str replaced by the bytes of its own UTF-8 encoding and back (unequal values, told apart by hash()): noticed
+    for text in ("caf\u00e9", "\u6771\u4eac", "\u00e5bc"):
+        for col, w in (([text, 2.5, "x"], [0, ["bytes", text.encode().hex()]]), ([["bytes", text.encode().hex()], 2.5, "x"], [0, text])):
+            for via in ("vector", "colview"):
+                cs.append({"op": "tight", "cols": [col, [1, 2, 3]], "col": 0, "via": via, "writes": [w], "fp_first": True, "kind": "text"})
+    # tables with FEWER ROWS THAN COLUMNS (a one-row summary, 2 x 5): a write into any column - the last ones included - is noticed
+    # by the table's fingerprint
+    for rows, ncols in ((1, 2), (1, 4), (2, 5), (2, 3), (1, 6)):
+        for j in range(ncols):
+            for via in ("cell", "colview"):
+                cs.append({"op": "tight", "cols": [[10 * q + r + 1 for r in range(rows)] for q in range(ncols)], "col": j, "via": via,
+                           "writes": [[rows - 1, 900 + j]], "fp_first": True, "kind": "wide"})
     return cs
 
 
@@ -142,6 +154,8 @@ def _dv(x):
         return dt.date.fromordinal(x[1])
     if isinstance(x, list) and x and x[0] == "dt":
         return dt.datetime.combine(dt.date.fromordinal(x[1]), dt.time()) + dt.timedelta(seconds=x[2])
+    if isinstance(x, list) and x and x[0] == "bytes":
+        return bytes.fromhex(x[1])
     if isinstance(x, list) and x and x[0] == "nan":
         return float("nan")                                   # a NaN object of its own, every time
     if isinstance(x, list) and x and x[0] == "tup":
@@ -268,7 +282,7 @@ def oracle(case, obs):
                 f"gives {obs['fresh']}")
     if obs["again"] != obs["after"]:
         return f"C16-unstable: {what}: a second call returned {obs['again']} after {obs['after']}"
-    if case.get("kind") in ("str", "date", "dict", "nested", "nan") and obs["before"] is not None and obs["start"] != obs["contents"] \
+    if case.get("kind") in ("str", "date", "dict", "nested", "nan", "text", "wide") and obs["before"] is not None and obs["start"] != obs["contents"] \
             and obs["before"] == obs["after"]:
         return (f"C16-insensitive: {what}: the contents went from {obs['start']} to {obs['contents']} but the fingerprint "
                 f"stayed {obs['after']}")
